@@ -137,6 +137,15 @@ def reset_on_frame(F, R):
         edge = [v for k, v in conts.items() if flag in k]
         ok = bool(sites) and bool(edge) and all(edge_dominates(h, edge[0][0], edge[0][1], x) for x in sites)
         R.ob('C20.reset-on-frame', 'handle_timeout|%s only under %s' % (err, flag), ok, '%s must be reported only when the %s flag is set' % (err, flag))
+    # a new rate period starts whenever the read timer is extended: the bytes seen so far become the baseline
+    # (read_remains_prev <- read_remains) on every path to start_timer, whatever the max-timeout setting is
+    starts = [bi for bi, t in h.calls() if re.search(r'::start_timer$', callee_name(t) or '')]
+    adv = {bi for bi, j, s in h.assigns() if place_fields(s['lhs'])[-1:] == ['read_remains_prev']}
+    zero = {bi for bi, j, s in h.assigns() if place_fields(s['lhs'])[-1:] == ['read_remains'] and s['rv']['k'] == 'use' and const_val(s['rv']['op']) == 0}
+    R.ob('C20.reset-on-frame', 'handle_timeout|extends-the-read-timer', bool(starts), 'handle_timeout never re-arms the read timer')
+    for x in starts:
+        R.ob('C20.reset-on-frame', 'handle_timeout|timer-extended=>rate-window-advanced', bool(adv) and h.must_pass(adv, x) and (not zero or h.must_pass(zero, x)),
+             'the read timer can be extended without starting a new rate period (read_remains_prev / read_remains not updated on some path): the byte count compared with the rate is then cumulative, so a peer that sent one burst and stalled is extended forever', h.loc(x))
     asserts = [s for s in panics.sites(h) if s['kind'] == 'assert']
     R.ob('C20.reset-on-frame', 'handle_timeout|read-rate arithmetic cannot underflow', not asserts, 'unchecked arithmetic on read_remains: %s' % [s['what'] for s in asserts])
     # both keep-alive sources end in Control::proto (imported from C07.reason-map)
